@@ -595,6 +595,17 @@ impl<'a, Input: InputIndexer> MatchAttempter<'a, Input> {
                         input.next_right_pos(*max)
                     };
                     if let Some(newmax) = newmax {
+                        // Stepping over a multi-unit character overshoots min if min lies inside
+                        // it (a UTF-16 search started between the halves of a surrogate pair).
+                        let overshot = if Dir::FORWARD {
+                            newmax < *min
+                        } else {
+                            newmax > *min
+                        };
+                        if overshot {
+                            self.bts.pop();
+                            continue;
+                        }
                         *pos = newmax;
                         *max = newmax;
                     } else {
@@ -626,6 +637,16 @@ impl<'a, Input: InputIndexer> MatchAttempter<'a, Input> {
                         input.next_left_pos(*min)
                     };
                     if let Some(newmin) = newmin {
+                        // Likewise do not step past max.
+                        let overshot = if Dir::FORWARD {
+                            newmin > *max
+                        } else {
+                            newmin < *max
+                        };
+                        if overshot {
+                            self.bts.pop();
+                            continue;
+                        }
                         *pos = newmin;
                         *min = newmin;
                     } else {
